@@ -156,7 +156,13 @@ func (e *c10Env) runUnderFake(id string, dir string, args []string, fp *faultPla
 				os.Remove(filepath.Join(work, en.Name()))
 			}
 		}
-		res := e.env.bin.Run(run.Opt{Dir: dir, Args: args, PathFirst: e.fake, Env: env, Home: e.home, Timeout: 60 * time.Second})
+		stdoutTo := ""
+		for _, kv := range env {
+			if strings.HasPrefix(kv, "VERIF_STDOUT_TO=") {
+				stdoutTo = kv[len("VERIF_STDOUT_TO="):]
+			}
+		}
+		res := e.env.bin.Run(run.Opt{Dir: dir, Args: args, PathFirst: e.fake, Env: env, Home: e.home, Timeout: 60 * time.Second, StdoutTo: stdoutTo})
 		fr.Exit, fr.TimedOut = res.Exit, res.TimedOut
 		fr.Stdout, fr.Stderr = string(res.Stdout), string(res.Stderr)
 		fr.Log = readGitLog(logf)
@@ -607,6 +613,12 @@ func (e *c10Env) invalidInputs(sc cases.ScanCase, repo *gitrepo.Repo, ri int, on
 			prep: func(dir string) (string, []string) {
 				return repo.Dir, []string{"GIT_CONFIG_COUNT=1", "GIT_CONFIG_KEY_0=" + kv[0], "GIT_CONFIG_VALUE_0=" + kv[1]}
 			}})
+	}
+	// the report itself cannot be written (the disk is full): no run may claim success
+	for i, args := range [][]string{{"--no-progress"}, {"--no-progress", "-v"}, {"--no-progress", "--json"}, {"--no-progress", "--json", "--json-version=2"}} {
+		args := args
+		jobs = append(jobs, job{id: fmt.Sprintf("fullstdout-%d-%d", ri, i), setup: "stdout is /dev/full: " + strings.Join(args, " "), args: args,
+			prep: func(dir string) (string, []string) { return repo.Dir, []string{"VERIF_STDOUT_TO=/dev/full"} }})
 	}
 	if only != "" {
 		var keep []job
